@@ -64,10 +64,22 @@ def gen(rng, k):
     b = np.array([rng.uniform(-1, 1), rng.uniform(9, 13)])
     shape = [int(rng.integers(44, 64)), int(rng.integers(44, 64))]
     zero = np.array([shape[0] / 2 + rng.uniform(-2, 2), shape[1] / 2 + rng.uniform(-2, 2)])
+    # search radius: integer or fractional; in "sliver" mode a lattice row / column is placed at a distance from the
+    # border inside [search, ceil(search)) or just below search, where margin rules that round the radius differ
+    search = radius * 2 + float(rng.choice([0.0, 0.25, 0.5, 0.75]))
+    sliver = k % 4
+    if sliver in (1, 2):
+        ax = sliver - 1
+        side = int(rng.integers(0, 2))
+        d = search + float(rng.choice([-0.2, 0.1, 0.3, 0.6, 0.9])) * (1.0 if search != int(search) else 0.45)
+        target = d if side == 0 else shape[ax] - d - 1e-3 * (search == int(search))
+        step = (a if ax == 0 else b)[ax]
+        kk = int(round((target - zero[ax]) / step))
+        zero[ax] = target - kk * step
     nfr = int(rng.integers(1, 7))
     zmode = k % 3
     zs = [None, np.round(rng.uniform(-2, 2, 2), 2).tolist(), np.round(rng.uniform(-2, 2, (nfr, 2)), 2).tolist()][zmode]
-    return {"seed": int(rng.integers(1 << 30)), "radius": radius, "shape": shape, "zero": zero, "a": a, "b": b,
+    return {"seed": int(rng.integers(1 << 30)), "radius": radius, "search": search, "shape": shape, "zero": zero, "a": a, "b": b,
             "nframes": nfr, "zero_shift": zs, "partitions": partitions_of(rng, nfr),
             "correlation": ("fast", "fullframe", "sparse")[(k // 3) % 3], "match": ("fast", "affine")[k % 2],
             "layout": ("mgrid", "list")[(k // 2) % 2], "tolerance": float(rng.choice([1.0, 1.5, 3.0])),
@@ -98,7 +110,7 @@ def run_case(kind, q):
         warnings.simplefilter("ignore")
         if kind == "refine":
             frames = render(q, rng)
-            pat = impl.make_pattern("background_subtraction", q["radius"], search=q["radius"] * 2, radius_outer=q["radius"] * 1.5)
+            pat = impl.make_pattern("background_subtraction", q["radius"], search=q.get("search", q["radius"] * 2), radius_outer=q["radius"] * 1.5)
             matcher = grm.Matcher(tolerance=q["tolerance"], min_weight=0.1, min_match=3)
             zero0, a0, b0 = (np.array(q[k], dtype=np.float64) for k in ("zero", "a", "b"))
             zero_arg = zero0.copy() if q["zero_as"] == "ndarray" else tuple(zero0.tolist())
@@ -123,6 +135,20 @@ def run_case(kind, q):
                                                indices=indices)
             if not np.array_equal(used, want_idx):
                 msgs.append("returned indices are not the lattice positions with margin pattern.search")
+            # independent of frame_peaks: the half-open margin rule of the statement, r = pattern.search
+            flat_idx = indices.reshape(2, -1).T if q["layout"] == "mgrid" else indices
+            pos = zero0 + flat_idx[:, :1] * a0 + flat_idx[:, 1:] * b0
+            r_ = float(pat.search)
+            keep = (pos[:, 0] >= r_) & (pos[:, 0] < q["shape"][0] - r_) & (pos[:, 1] >= r_) & (pos[:, 1] < q["shape"][1] - r_)
+            # positions closer than 1e-9 to a margin are left out of the comparison (float rounding of zero + i*a + j*b)
+            dist = np.min(np.abs(np.stack([pos[:, 0] - r_, q["shape"][0] - r_ - pos[:, 0], pos[:, 1] - r_, q["shape"][1] - r_ - pos[:, 1]])), axis=0)
+            sure = dist > 1e-9
+            used_set = {tuple(int(v) for v in u) for u in np.asarray(used).reshape(-1, 2)}
+            for ii, (ix, kp, su) in enumerate(zip(flat_idx, keep, sure)):
+                if su and (tuple(int(v) for v in ix) in used_set) != bool(kp):
+                    msgs.append(f"run_refine {'dropped' if kp else 'kept'} lattice index {ix.tolist()} at {pos[ii].tolist()} although "
+                                f"the margin rule search={r_} <= p < {q['shape']} - search says otherwise")
+                    break
             for f in range(q["nframes"]):
                 z = np.zeros(2) if zs is None else (np.asarray(zs) if np.ndim(zs) == 1 else np.asarray(zs)[f])
                 args = dict(centers=res["centers"].data[f], refineds=res["refineds"].data[f],
@@ -146,6 +172,10 @@ def run_case(kind, q):
                     z = np.zeros(2) if zs is None else (np.asarray(zs) if np.ndim(zs) == 1 else np.asarray(zs)[f])
                     pk = want_peaks.astype(int) + np.round(z).astype(int)
                     c = pat.get_crop_size()
+                    if res["centers"].data[f].shape != pk.shape:
+                        msgs.append(f"frame {f}: {res['centers'].data[f].shape[0]} positions were correlated, the margin rule "
+                                    f"with r = pattern.search selects {pk.shape[0]}")
+                        break
                     d = res["centers"].data[f] - pk
                     if np.any(d < -c) or np.any(d > c - 1):
                         msgs.append(f"frame {f}: centres are not within the windows of the lattice positions shifted by the zero shift")
